@@ -4,6 +4,7 @@ import collections
 import hashlib
 import json
 import os
+import re
 import shlex
 import vlib
 
@@ -54,8 +55,10 @@ def _case_of(line):
 
 
 def _replay_cmd(exe, case):
-    if len(case) > 20000:
-        return "VERIF_SEED=<seed> %s <tier> | grep ^FAIL" % exe
+    head = case.split(" | ")[0].split(",")
+    if len(case) > 20000 or (case.startswith("SW") and len(head) > 1 and head[1].strip() == "1"):
+        # too big for a command line / produced through gboost::sampler_t (the direct sampler replay would bypass it)
+        return "VERIF_SEED=<seed of this file> %s <tier of this run> | grep ^FAIL" % exe
     # the input part of the line is enough for the replay mode (the harness recomputes oracle answers and result)
     return "printf '%%s\\n' %s | %s replay | grep ^FAIL" % (shlex.quote(case.split(" = ")[0]), exe)
 
@@ -130,7 +133,7 @@ def run(tier, replay=None):
     seen_kinds = []
     for l in fails:
         what = l[5:].split(" :: ", 1)[0]
-        kind = what.split(":")[0] + ":" + what.split(":")[-1][:40]
+        kind = re.sub(r"\d+", "#", what)
         if kind in seen_kinds:
             continue
         seen_kinds.append(kind)
@@ -169,7 +172,8 @@ def run(tier, replay=None):
         propfail.sort(key=len)
         for i, l in enumerate(propfail[:2]):
             case = _case_of(l)
-            r.violation("prop-%d" % i, {"kind": "verified checker (C12_checker_sound) rejects what the implementation returned",
+            r.violation("prop-%d" % i, {"kind": "checker in the model driver (verified split/sortedness/membership checkers of C12_Defs, zero-weight lookup) "
+                                                "rejects what the implementation returned",
                                         "what": l.split(" // ", 1)[-1], "case": _clip(case), "replay_cmd": _replay_cmd(exe, case)})
         mism.sort(key=len)
         concrete = bool(fails or propfail)
